@@ -232,6 +232,7 @@ def run(F, res, tier):
     _c10q.no_double_descent(F, res, rule="M9")
     files_lie_below_their_root(F, res)
     disk_reads_are_bounded(F, res)
+    client_named_paths_are_read_as_regular_files(F, res)
     _c13x2 = __import__("rules.c13", fromlist=["x"])
     _c13x2.edits_use_the_current_line_map(F, res, rule="M11")
     from rules import c13 as _c13x
@@ -569,3 +570,36 @@ def disk_reads_are_bounded(F, res, rule="M12"):
     res.ob(rule, "disk-reads/bounded", "every text the server library reads from disk is read through a length-limited reader (a file of 4 GiB named by "
            "a watched-files event cannot reach LineMap::normalize)", not unbounded and bounded > 0, where="crates/glas/src/server.rs",
            how="; ".join(unbounded) or "%d read(s), all through io::Take" % bounded)
+
+
+def client_named_paths_are_read_as_regular_files(F, res, rule="M13"):
+    """M13: a notification can name any path. Opening a FIFO (or /dev/stdin) blocks for ever, on the main loop: no message
+    is handled again. Wherever a handler of the main loop stores a text read from a path that came out of the message
+    (uri.to_file_path()), the read goes through a function that looks at the file type first (FileType::is_file) - the
+    reader the watched-files handler has always used. The reload added to didClose did not (found by a round-7 agent)."""
+    from rules import c13 as _c13
+    is_guard = lambda f: any((callee(t) or callee_def(t) or "").endswith("FileType::is_file") for q in F.with_closures(f) if q in F.fns for _b, t in F.fns[q].calls())
+    guarded_readers = {p for p in F.fns if p.startswith(("glas::", "<glas::")) and F.fns[p].blocks and "{closure" not in p and is_guard(p)}
+    n = 0
+    for p, f in sorted(F.fns.items()):
+        if not p.startswith(S) or not f.blocks or "{closure" in p:
+            continue
+        d = None
+        for b, t in f.calls():
+            c = callee(t) or ""
+            if c not in (S + "set_vfs_file_content", "glas::vfs::Vfs::set_path_content") or len(t["args"]) < 3:
+                continue
+            d = d or FL.Defs(f)
+            dep = FL.depends(F, f, d, t["args"][2])
+            reads = {x for x in dep["calls"] if x.endswith(("read_to_string", "read_source", "fs::read")) or any(x == FL.short(g) for g in guarded_readers)}
+            if not reads:
+                continue
+            from_message = any(x.rsplit("::", 1)[-1] in ("to_file_path", "to_vfs_path") for x in dep["calls"])
+            if not from_message:
+                continue
+            n += 1
+            ok = any(x == FL.short(g) for g in guarded_readers for x in dep["calls"]) or is_guard(p)
+            res.ob(rule, "regular-file/%s" % FL.short(p), "a path named by the client is read only after its file type was looked at (a FIFO would block "
+                   "the main loop for good)", ok, where=f.loc(t["ln"]), how="the text depends on %s; readers that check the file type: %s" % (
+                       sorted(reads), sorted(FL.short(g) for g in guarded_readers)))
+    res.floor("main-loop handlers that store a text read from a client-named path", n, 2)
